@@ -50,4 +50,19 @@ int loop_no_progress(const QDomElement &el)
     return n;
 }
 
+struct OrderDependent {
+    QString thread;
+    QString markedThread;
+    void parseOrderDependent(const QDomElement &el)
+    {
+        for (QDomElement c = el.firstChildElement(); !c.isNull(); c = c.nextSiblingElement()) {
+            if (c.tagName() == QStringLiteral("thread")) {
+                thread = c.text();
+            } else if (c.tagName() == QStringLiteral("marker")) {
+                markedThread = thread;                         // R6: depends on whether <thread/> came first
+            }
+        }
+    }
+};
+
 }  // namespace qxv_control
